@@ -3,7 +3,7 @@
     Decoding of cases and encoding of results is Gallina, so it is the same code
     in both paths. *)
 From Coq Require Import String.
-From Cvg Require Import Base Cli GoTypes Re Unicode Matcher Dump Options Front Builder Gen Pipeline.
+From Cvg Require Import Base Cli GoTypes Re Unicode Matcher Dump Options Front Builder Gen Pipeline BaseCode.
 Open Scope N_scope.
 
 Definition sx_str (s : str) : sexp := Atom s.
@@ -175,6 +175,23 @@ Definition enc_function (f : function) : sexp :=
 Definition enc_block (b : block) : sexp :=
   sx_tag "block" [sx_num (b_index b); Atom (if_name (b_decl b)); SList (List.map enc_function (b_funcs b))].
 
+Definition enc_comment (c : comment) : sexp :=
+  match c_orig c with
+  | Some (gi, ci) => sx_tag "orig" [sx_num gi; sx_num ci]
+  | None => sx_tag "marker" [sx_num (c_pos c); Atom (c_text c)]
+  end.
+
+(** (assemble printed ((index text) ...)): cut + generateContent *)
+Definition case_assemble (l : list sexp) : sexp :=
+  match l with
+  | [Atom printed; SList bs] =>
+      match map_opt (fun b => match b with SList [i; Atom t] => let? i := num_of i in Some (i, t) | _ => None end) bs with
+      | Some bs => Atom (assemble_texts printed bs)
+      | None => sx_err "assemble blocks"
+      end
+  | _ => sx_err "assemble"
+  end.
+
 Definition case_gen (l : list sexp) : sexp :=
   match l with
   | [dmp] =>
@@ -184,7 +201,8 @@ Definition case_gen (l : list sexp) : sexp :=
           let po := run_pipeline d in
           let evs := SList (List.map enc_event (po_events po)) in
           match po_result po with
-          | Ok bs => sx_tag "ok" [evs; SList (List.map enc_block bs)]
+          | Ok bs => sx_tag "ok" [evs; SList (List.map enc_block bs);
+                                  SList (List.map (fun g => SList (List.map enc_comment g)) (base_groups (po_store po) bs))]
           | Err m => sx_tag "err" [evs; Atom m]
           | Panic s => sx_tag "panic" [evs; Atom s]
           | Fuel => sx_tag "fuel" [evs]
@@ -204,6 +222,7 @@ Definition run_case (e : sexp) : sexp :=
       else if str_eqb tag (s2b "pmseq") then case_pmseq rest
       else if str_eqb tag (s2b "strfun") then case_strfun rest
       else if str_eqb tag (s2b "gen") then case_gen rest
+      else if str_eqb tag (s2b "assemble") then case_assemble rest
       else sx_err "unknown case tag"
   | _ => sx_err "case shape"
   end.
